@@ -13,7 +13,7 @@ set_option maxHeartbeats 4000000 in
 theorem ffi_now_snap_err (inp : Nat → Value) (h err : Value) (e : ShmErrorV) (bound : Except ShmErrorV Bound)
     (h0 : inp 0 = snapResValue (.error e)) :
     run (ctxE inp) "ffi_lib::clockbound_now" .unit [heapPtr (ctxValue err h), outPtr "output"]
-    = ffiNowOutcome (nowCalls h (.error e) bound) (firstErr (.error e) bound) := by
+    = ffiNowOutcome (nowCalls h (.error e) bound) (clientNow (.error e) bound) := by
   cases e <;> simp [rs_eval, rs_code, clientFns, h0, shmErrorValue, clientErrValue, ffiErrValue, ShmErrorV.toClient, clientKindValue, ffiKindValue, ffiKindName, snapResValue, boundResValue, openResValue, resultValue, clientValue, ctxValue, boundValue, recordValue, ctimespecValue, nowCalls, clientNow, clientOpen, firstErr, rustNowOutcome, rustNowValue, ffiNowOutcome, ffiNowValue, ffiStatusValue, ffiStatusName, userTypeName_status, primMethod_status_into]
 
 set_option maxRecDepth 8000 in
@@ -21,7 +21,7 @@ set_option maxHeartbeats 4000000 in
 theorem ffi_now_bound_err (inp : Nat → Value) (h err : Value) (r : Record) (e : ShmErrorV)
     (h0 : inp 0 = snapResValue (.ok r)) (h1 : inp 1 = boundResValue (.error e)) :
     run (ctxE inp) "ffi_lib::clockbound_now" .unit [heapPtr (ctxValue err h), outPtr "output"]
-    = ffiNowOutcome (nowCalls h (.ok r) (.error e)) (firstErr (.ok r) (.error e)) := by
+    = ffiNowOutcome (nowCalls h (.ok r) (.error e)) (clientNow (.ok r) (.error e)) := by
   cases e <;> simp [rs_eval, rs_code, clientFns, h0, h1, shmErrorValue, clientErrValue, ffiErrValue, ShmErrorV.toClient, clientKindValue, ffiKindValue, ffiKindName, snapResValue, boundResValue, openResValue, resultValue, clientValue, ctxValue, boundValue, recordValue, ctimespecValue, nowCalls, clientNow, clientOpen, firstErr, rustNowOutcome, rustNowValue, ffiNowOutcome, ffiNowValue, ffiStatusValue, ffiStatusName, userTypeName_status, primMethod_status_into]
 
 set_option maxRecDepth 8000 in
@@ -29,13 +29,14 @@ set_option maxHeartbeats 4000000 in
 theorem ffi_now_ok (inp : Nat → Value) (h err : Value) (r : Record) (b : Bound)
     (h0 : inp 0 = snapResValue (.ok r)) (h1 : inp 1 = boundResValue (.ok b)) :
     run (ctxE inp) "ffi_lib::clockbound_now" .unit [heapPtr (ctxValue err h), outPtr "output"]
-    = ffiNowOutcome (nowCalls h (.ok r) (.ok b)) (firstErr (.ok r) (.ok b)) := by
-  simp [rs_eval, rs_code, clientFns, h0, h1, shmErrorValue, clientErrValue, ffiErrValue, ShmErrorV.toClient, clientKindValue, ffiKindValue, ffiKindName, snapResValue, boundResValue, openResValue, resultValue, clientValue, ctxValue, boundValue, recordValue, ctimespecValue, nowCalls, clientNow, clientOpen, firstErr, rustNowOutcome, rustNowValue, ffiNowOutcome, ffiNowValue, ffiStatusValue, ffiStatusName, userTypeName_status, primMethod_status_into]
+    = ffiNowOutcome (nowCalls h (.ok r) (.ok b)) (clientNow (.ok r) (.ok b)) := by
+  obtain ⟨e, l, s⟩ := b
+  cases s <;> simp [rs_eval, rs_code, clientFns, h0, h1, shmErrorValue, clientErrValue, ffiErrValue, ShmErrorV.toClient, clientKindValue, ffiKindValue, ffiKindName, snapResValue, boundResValue, openResValue, resultValue, clientValue, ctxValue, boundValue, recordValue, ctimespecValue, nowCalls, clientNow, clientOpen, firstErr, rustNowOutcome, rustNowValue, ffiNowOutcome, ffiNowValue, ffiStatusValue, ffiStatusName, userTypeName_status, primMethod_status_into, statusName]
 
 theorem ffi_now (inp : Nat → Value) (h err : Value) (snap : Except ShmErrorV Record) (bound : Except ShmErrorV Bound)
     (h0 : inp 0 = snapResValue snap) (h1 : inp 1 = boundResValue bound) :
     run (ctxE inp) "ffi_lib::clockbound_now" .unit [heapPtr (ctxValue err h), outPtr "output"]
-    = ffiNowOutcome (nowCalls h snap bound) (firstErr snap bound) := by
+    = ffiNowOutcome (nowCalls h snap bound) (clientNow snap bound) := by
   cases snap with
   | error e => exact ffi_now_snap_err inp h err e bound h0
   | ok r =>
